@@ -165,7 +165,7 @@ func emitSequence(info *types.Info, fd *ast.FuncDecl) emSeq {
 					}
 				}
 			case *ast.IfStmt:
-				cond := strings.ReplaceAll(types.ExprString(x.Cond), " ", "")
+				cond := strings.ReplaceAll(expandPredicates(info, x.Cond), " ", "")
 				if x.Init != nil {
 					walk([]ast.Stmt{x.Init}, guards, loop)
 					if as, ok := x.Init.(*ast.AssignStmt); ok {
